@@ -121,7 +121,28 @@ def modelStep (s : St) (ts : List String) : St × Option String :=
     | _, _ => (s, some "bad-op")
   | _ => (s, some "bad-op")
 
-/-! ## oracle -/
+/-! ## oracle
+
+The oracle judges the **implementation's own trace**: the node count, the set of nodes whose real breaker
+answers `TryPass = false` (`rej=`, asked by the harness right after the check), the real breaker states
+after the check (`post=`), against the reported filter / half-open lists.  From the op history it only
+takes the rule (`MaxEjectionPercent` as the exact rational `m / 2^E`, `EnableActiveRecovery`) and the
+recycler bookkeeping (`stSchedule` / `stRecover` / `stRecycle` of the model, fed with the observed outliers). -/
+
+structure ORes where
+  m : Nat
+  E : Nat
+  active : Bool
+  status : Status := []
+
+structure OSt where
+  res : List (String × ORes) := []
+
+def oGet (s : OSt) (name : String) : Option ORes := (s.res.find? (·.1 == name)).map (·.2)
+
+def oSet (s : OSt) (name : String) (r : ORes) : OSt :=
+  if s.res.any (·.1 == name) then { s with res := s.res.map fun p => if p.1 == name then (name, r) else p }
+  else { s with res := s.res ++ [(name, r)] }
 
 def field (res : String) (key : String) : Option String :=
   ((res.splitOn " ").find? (·.startsWith (key ++ "="))).map fun f => (f.drop (key.length + 1)).toString
@@ -134,44 +155,64 @@ def parseList (s : String) : Option (List String) :=
 
 def subset (xs ys : List String) : Bool := xs.all fun x => ys.contains x
 
-/-- judge one observed check against the model's views -/
-def judgeCheck (r : Res) (t : RuleText) (now : Nat) (res : String) : String :=
-  let (_, out) := r.check now (sortNodes r.nodes)
-  let n := r.nodes.length
-  let rejM := sortS out.outliers
-  let halfM := sortS out.halfs
-  let capM := r.rule.cap n
-  let floorE := capExact n t.m t.E
-  match (field res "nf").bind String.toNat?, field res "filter", (field res "halfopen").bind parseList,
-        (field res "rej").bind parseList with
-  | some nf, some fl, some halfs, some rejI =>
+/-- judge one observed request; returns the verdict and the observed rejecting set -/
+def judgeCheck (r : ORes) (res : String) : String × List String :=
+  match (field res "n").bind String.toNat?, (field res "nf").bind String.toNat?, field res "filter",
+        (field res "halfopen").bind parseList, (field res "rej").bind parseList, (field res "post").bind parseList with
+  | some n, some nf, some fl, some halfs, some rej, some post =>
     let flist := if fl = "*" then some none else (parseList fl).map some
     match flist with
-    | none => "bad unparsable-filter"
+    | none => ("bad unparsable-filter", rej)
     | some fo =>
       let subOk := match fo with
         | none => true      -- the harness printed `*`: it found the chosen set to be a proper subset of `rej`
-        | some l => subset l rejM && subset l rejI && l.length == nf && l.eraseDups.length == l.length
-      if !subOk then "bad filter-not-subset-of-rejecting"
-      else if sortS halfs ≠ halfM then "bad halfopen-set"
-      else if nf ≠ min capM rejM.length then "bad filter-size-not-min-cap-rejecting"
-      else if nf ≤ floorE then "ok"
-      else if nf ≤ floorE + 1 ∧ nf ≤ capM then "known:cap-float-roundup"
-      else "bad filter-exceeds-floor"
-  | _, _, _, _ => "bad unparsable"
+        | some l => subset l rej && l.length == nf && l.eraseDups.length == l.length
+      -- passively probed: passive mode, let through (not rejecting), half-open after the check
+      let halfExp := if r.active then [] else
+        sortS (post.filterMap fun x => match x.splitOn ":" with
+          | [a, "H"] => if rej.contains a then none else some a
+          | _ => none)
+      let capC := capF64 n r.m r.E
+      let floorE := capExact n r.m r.E
+      if post.length ≠ n then ("bad node-count", rej)
+      else if !subOk then ("bad filter-not-subset-of-rejecting", rej)
+      else if sortS halfs ≠ halfExp then ("bad halfopen-set", rej)
+      else if nf > floorE + 1 ∨ nf > capC then ("bad filter-exceeds-floor", rej)
+      else if nf ≠ min capC rej.length then ("bad filter-size-not-min-cap-rejecting", rej)
+      else if nf ≤ floorE then ("ok", rej)
+      else ("known:cap-float-roundup", rej)
+  | _, _, _, _, _, _ => ("bad unparsable", [])
 
-def oracleStep (s : St) (ts : List String) (line : String) : St × Option String :=
+def oracleStep (s : OSt) (ts : List String) (line : String) : OSt × Option String :=
   let res := (resPart line).getD ""
-  let (s', mres) := modelStep s ts
-  if mres == some "bad-op" then (s, some "bad-op") else
   match ts with
-  | ["call", name, _, _, _] | ["probe", name] => match getRes s name with
-    | some (r, t) => (s', some (judgeCheck r t s.now res))
+  | ["load", name, _, _, _, _, _, _, _, _, maxEj, active] => match parseF? maxEj, active.toNat? with
+    | some (m, E), some act =>
+      if res ≠ "ok" then (s, some "?") else
+      let st := ((oGet s name).map (·.status)).getD []
+      (oSet s name { m := m, E := E, active := act ≠ 0, status := st }, some "?")
+    | _, _ => (s, some "bad-op")
+  | ["clock", t] => if t.toNat?.isSome then (s, none) else (s, some "bad-op")
+  | ["call", name, addr, oc, _] => match oGet s name with
+    | some r =>
+      let (v, rej) := judgeCheck r res
+      let st := if rej.isEmpty then r.status else stSchedule r.status rej
+      let st := if oc == "ok" then stRecover st addr else st
+      (oSet s name { r with status := st }, some v)
     | none => (s, some "bad-op")
-  | ["recycle", name, addr] => match getRes s name with
-    | some (r, _) =>
+  | ["probe", name] => match oGet s name with
+    | some r =>
+      let (v, rej) := judgeCheck r res
+      (oSet s name { r with status := if rej.isEmpty then r.status else stSchedule r.status rej }, some v)
+    | none => (s, some "bad-op")
+  | ["retry", name, addr, _] => match oGet s name with
+    | some r => (oSet s name { r with status := stRecover r.status addr }, some "?")
+    | none => (s, some "bad-op")
+  | ["recycle", name, addr] => match oGet s name with
+    | some r =>
       -- a node marked recovered (successful completion since it was scheduled) must survive the timer
       let safe := r.status.any fun p => p.1 == addr && p.2
+      let s' := oSet s name { r with status := (stRecycle r.status addr).1 }
       match (field res "nodes").bind parseList with
       | some ns =>
         let present := ns.any fun x => (x.splitOn ":").head? == some addr
@@ -181,21 +222,20 @@ def oracleStep (s : St) (ts : List String) (line : String) : St × Option String
   | ["cap", n, p] => match n.toNat?, parseF? p, res.toNat? with
     | some n, some (m, E), some c =>
       let fl := capExact n m E
-      (s', some (if c ≤ fl then "ok" else if c = fl + 1 then "known:cap-float-roundup" else "bad cap-exceeds-floor"))
-    | _, _, _ => (s', some "bad unparsable")
+      (s, some (if c ≤ fl then "ok" else if c = fl + 1 then "known:cap-float-roundup" else "bad cap-exceeds-floor"))
+    | _, _, _ => (s, some "bad unparsable")
   | ["capdec", n, k] => match n.toNat?, k.toNat?, (field res "cap").bind String.toNat? with
     | some n, some k, some c =>
       -- decimal percentage k/100: the code's cap is ⌊n·k/100⌋ or one lower, never higher
       let fl := n * k / 100
-      (s', some (if c ≤ fl ∧ fl ≤ c + 1 then "ok" else "bad decimal-cap"))
-    | _, _, _ => (s', some "bad unparsable")
-  | ["load", _, _, _, _, _, _, _, _, _, _, _] | ["retry", _, _, _] => (s', some "?")
-  | _ => (s', none)
+      (s, some (if c ≤ fl ∧ fl ≤ c + 1 then "ok" else "bad decimal-cap"))
+    | _, _, _ => (s, some "bad unparsable")
+  | _ => (s, some "bad-op")
 
 def run (mode : String) : IO Unit :=
   match mode with
   | "model" => loop ({} : St) fun s ts _ => modelStep s ts
-  | "oracle" => loop ({} : St) fun s ts line => oracleStep s ts line
+  | "oracle" => loop ({} : OSt) fun s ts line => oracleStep s ts line
   | _ => IO.eprintln s!"C20: unknown mode {mode}"
 
 end Sentinel.Drv.C20
